@@ -36,6 +36,20 @@ class CellBound:
     def log_v(self):
         return float(np.log(len(self.cells) / self.C))
 
+    # checkpointing (the sampler writes / reads its bounds through these)
+    def write(self, group):
+        group.attrs['type'] = 'CellBound'
+        group.attrs['cells'] = np.array(self.cells, dtype=int)
+        group.attrs['C'] = self.C
+        group.attrs['n_dim'] = self.n_dim
+
+    def update(self, group):
+        pass
+
+    @classmethod
+    def read(cls, group, rng=None):
+        return cls([int(c) for c in group.attrs['cells']], int(group.attrs['C']), int(group.attrs['n_dim']), rng)
+
     @property
     def n_ell(self):
         return len(self.cells)
@@ -76,6 +90,10 @@ def install(world, n_dim=2):
                     if len(cells - d) >= 1:
                         cells -= d
                     return CellBound(cells, world.C, points.shape[1], rng)
+
+                @classmethod
+                def read(cls, group, rng=None):
+                    return CellBound.read(group, rng=rng)
             ns.NautilusBound = FakeNB
             return self_
 
